@@ -239,7 +239,8 @@ class CppGen:
             slots.append((p, "a%d" % i))
         out += pre
         if sk in ("struct", "enum"):
-            out.append("auto s_ = %s;" % out_self)
+            # a by-value receiver is called through a CONST object: methods of structs and enums consume a copy and are const in C++
+            out.append("const auto s_ = %s;" % out_self)
         out.append("LB();")
         first = True
         if sk in ("opq", "opqmut"):
